@@ -100,7 +100,18 @@ pub fn c10(a: &Analysis) -> Vec<Violation> {
             if suspended {
                 continue;
             }
-            let before_any_finish = !reported_finished_by(side, c.vt) && !reported_finished_by(peer_side, c.vt);
+            // (at the cancelling side a Finished / Abandon indication that carries the cancel
+            // condition at the instant of the request is the request's own effect - a receiver
+            // reports its cancel at once -, not a report that preceded it)
+            let own_earlier = side.inds.iter().any(|i| {
+                i.vt <= c.vt
+                    && match &i.ind {
+                        Indication::Finished(f) => !(i.vt == c.vt && i.seq > c.seq && f.report.condition == Condition::CancelReceived),
+                        Indication::Abandon(f) => !(i.vt == c.vt && i.seq > c.seq && f.condition == Condition::CancelReceived),
+                        _ => false,
+                    }
+            });
+            let before_any_finish = !own_earlier && !reported_finished_by(peer_side, c.vt);
             if !before_any_finish {
                 continue;
             }
